@@ -31,6 +31,8 @@ ASSUMPTIONS = [
     'point mass for pooled/heterogeneous, standard normal for non-centred',
     'observations of pooled / heterogeneous models equal the parameters '
     '(otherwise the point mass is -inf, tested separately)',
+    'population models document np.ndarray inputs: input forms are array forms only',
+    'composed models are evaluated in the flat layout except in the composed_layout family (open finding KF-C05-composed-matrix-layout)',
 ]
 ANCHORS = [
     'chi._population_models.%s.%s' % (c, m)
